@@ -191,6 +191,7 @@ pub fn run() {
     // the sound driver sizes allocations from configuration; keep it well-formed
     zoo::setup_device(kind, offered, kind.default_config());
     zoo::install_personality(kind);
+    with(|w| w.cfg.gate_config_fields = true);
     if kind == Kind::Gpu && flip(1, 6) {
         // nothing plugged into scanout 0: the display-info rectangle is empty
         with(|w| w.personality::<crate::devices::gpu::GpuDev>().display = (0, 0));
